@@ -22,6 +22,8 @@ import (
 //	render   RenderToDocument (Entry 0) / RenderTemplateToDocument (Entry 1) of (Name, Datas[Data])
 //	remove   RemoveTemplate(Name)
 //	clear    ClearCache()
+//	other    a call on ANOTHER engine of the same process (Sub: load | render | remove | clear, with Name / Src /
+//	         Entry / Data as above): what happens on another engine is no call on this one at all
 //	edit     the caller goes on working with a document an earlier render returned: Edit is applied to the
 //	         Ref-th result kept so far (modulo their number); see retain.go
 type Op struct {
@@ -33,6 +35,7 @@ type Op struct {
 	Data  int       `json:"data,omitempty"`
 	Ref   int       `json:"ref,omitempty"`
 	Edit  *EditSpec `json:"edit,omitempty"`
+	Sub   string    `json:"sub,omitempty"`
 }
 
 // EditSpec is one call of the document API on a document a render returned.
